@@ -7,6 +7,8 @@ import PV.Model.Gamma
 import PV.Spec.Wolff
 import PV.Model.History
 import PV.Model.Ops
+import PV.Model.Corr
+import PV.Model.Format
 
 open Lean PV PV.Wire
 
@@ -100,12 +102,99 @@ def opExprTree (j : Json) : Except String Json := do
   | .ok (.num x) => pure (obj [("num", enc x)])
   | .error e => pure (obj [("exc", .str (reprStr e))])
 
+def decCorr (j : Json) : Except String (Corr Float) := do
+  let n : Nat ← get j "N"
+  let c : List (Option (List (List Float))) ← get j "content"
+  pure { content := c, N := n }
+
+def encCorr (c : Corr Float) : Json :=
+  obj [("N", enc c.N), ("content", enc c.content),
+       ("prange", match c.prange with | some (a, b) => Json.arr #[enc a, enc b] | none => .null)]
+
+def corrResult (r : Except Corr.CErr (Corr Float)) : Json :=
+  match r with
+  | .ok c => obj [("corr", encCorr c)]
+  | .error e => obj [("exc", .str (reprStr e))]
+
+def unaryFn (f : String) : Option (Float → Float) :=
+  match f with
+  | "sin" => some Float.sin | "cos" => some Float.cos | "tan" => some Float.tan
+  | "sinh" => some Float.sinh | "cosh" => some Float.cosh | "tanh" => some Float.tanh
+  | "arcsin" => some Float.asin | "arccos" => some Float.acos | "arctan" => some Float.atan
+  | "arcsinh" => some Float.asinh | "arccosh" => some Float.acosh | "arctanh" => some Float.atanh
+  | _ => none
+
+/-- op "corr": {"method": m, "a": Corr, ...} on central values -/
+def opCorr (j : Json) : Except String Json := do
+  let m : String ← get j "method"
+  let a ← decCorr (← field j "a")
+  let prA : Option (Nat × Nat) := match j.getObjVal? "prange" with
+    | .ok (.arr #[x, y]) => match jNat x, jNat y with | .ok p, .ok q => some (p, q) | _, _ => none
+    | _ => none
+  let a := { a with prange := prA }
+  let num : Except String Float := get j "y"
+  let b : Except String (Corr Float) := do decCorr (← field j "b")
+  match m with
+  | "add_corr" => pure (corrResult (Corr.add a (← b)))
+  | "sub_corr" => pure (corrResult (Corr.add a ((← b).mapCells (fun x => -1.0 * x))))
+  | "mul_corr" => pure (corrResult (Corr.mul a (← b)))
+  | "div_corr" => pure (corrResult (Corr.div a (← b)))
+  | "add_num" => do let y ← num; pure (corrResult (.ok (a.mapCells (· + y))))
+  | "sub_num" => do let y ← num; pure (corrResult (.ok (a.mapCells (· + (-y)))))
+  | "rsub_num" => do let y ← num; pure (corrResult (.ok (a.mapCells (fun x => -1.0 * x + y))))
+  | "mul_num" => do let y ← num; pure (corrResult (.ok (a.mapCells (· * y))))
+  | "div_num" => do
+      let y ← num
+      if y == 0 then pure (corrResult (.error .divZero)) else pure (corrResult (.ok (a.mapCells (· / y))))
+  | "rdiv_num" => do
+      let y ← num
+      if y == 0 then pure (corrResult (.error .divZero)) else pure (corrResult (.ok (a.mapCells (fun x => Float.pow (x / y) (-1)))))
+  | "pow_num" => do let y ← num; pure (corrResult (.ok (a.mapCells (fun x => Float.pow x y))))
+  | "neg" => pure (corrResult (.ok (a.mapCells (fun x => -1.0 * x))))
+  | "abs" => pure (corrResult (.ok (a.mapCells Float.abs)))
+  | "sqrt" => pure (corrResult (.ok (a.mapCells (fun x => Float.pow x 0.5))))
+  | "log" => pure (corrResult (.ok (a.mapCells Float.log)))
+  | "exp" => pure (corrResult (.ok (a.mapCells Float.exp)))
+  | "roll" => do let dt : Int ← get j "dt"; pure (corrResult (.ok (a.roll dt)))
+  | "reverse" => pure (corrResult (.ok a.reverse))
+  | "thin" => do pure (corrResult (.ok (a.thin (← get j "spacing") (← get j "offset"))))
+  | "symmetric" => pure (corrResult (Corr.symmetrize 1.0 0.5 a))
+  | "anti_symmetric" => pure (corrResult (Corr.symmetrize (-1.0) 0.5 a))
+  | "item" => do pure (corrResult (a.item (← get j "i") (← get j "j")))
+  | "trace" => pure (corrResult a.trace)
+  | "hankel" => do pure (corrResult (a.hankel (← get j "n") (← get j "periodic")))
+  | "deriv" => do pure (corrResult (a.deriv (← get j "variant")))
+  | "second_deriv" => do pure (corrResult (a.secondDeriv (← get j "variant")))
+  | "m_eff" => do pure (corrResult (a.mEff (← get j "variant") (fun _ r => r)))
+  | "plateau_avg" => do
+      match a.plateauAvg (← get j "lo") (← get j "hi") with
+      | .ok x => pure (obj [("num", enc x)])
+      | .error e => pure (obj [("exc", .str (reprStr e))])
+  | f => match unaryFn f with
+    | some g => pure (corrResult (Corr.applyFunc g a))
+    | none => .error s!"unknown corr method {f}"
+
+/-- op "fmt": {"v": [num,den], "d": [num,den], "sig": n, "fexp": e, "flag": ""|"+"|" "} ->
+    {"str": printed, "val": [num,den], "err": [num,den]} (the read-back values) -/
+def opFmt (j : Json) : Except String Json := do
+  let v : Rat ← get j "v"
+  let d : Rat ← get j "d"
+  let sig : Nat ← get j "sig"
+  let fexp : Int ← get j "fexp"
+  let flag : String ← get j "flag"
+  let x := Fmt.formatUncertainty v d sig fexp
+  let rb := Fmt.readBack x
+  pure (obj [("str", .str (Fmt.withFlag flag x.render)), ("val", enc rb.1), ("err", enc rb.2),
+             ("rd", enc (Fmt.roundDouble d))])
+
 def dispatch (op : String) (j : Json) : Except String Json :=
   match op with
   | "gamma" => opGamma false j
   | "wolff" => opGamma true j
   | "gm_history" => opHistory j
   | "expr_tree" => opExprTree j
+  | "corr" => opCorr j
+  | "fmt" => opFmt j
   | "ping" => pure (.str "pong")
   | _ => .error s!"unknown op {op}"
 
